@@ -31,6 +31,7 @@ type Program struct {
 	allFns   map[*ssa.Function]bool
 	fnByName map[string]*ssa.Function
 	cgi      *cgIndex
+	overlay  map[string][]byte
 }
 
 // Load loads /repo (dir). whole=true loads syntax of all dependencies too
@@ -68,7 +69,7 @@ func Load(dir string, whole bool, overlay map[string][]byte) (*Program, error) {
 	if len(pkgs) == 0 {
 		return nil, fmt.Errorf("no packages loaded from %s", dir)
 	}
-	p := &Program{Dir: dir, Fset: fset, Whole: whole, byPath: map[string]*packages.Package{}, ssaPkg: map[string]*ssa.Package{}, fnByName: map[string]*ssa.Function{}}
+	p := &Program{Dir: dir, Fset: fset, Whole: whole, overlay: overlay, byPath: map[string]*packages.Package{}, ssaPkg: map[string]*ssa.Package{}, fnByName: map[string]*ssa.Function{}}
 	var errs []string
 	packages.Visit(pkgs, nil, func(pk *packages.Package) {
 		p.All = append(p.All, pk)
@@ -281,4 +282,12 @@ func NameMatch(name, pat string) bool {
 		return true
 	}
 	return false
+}
+
+// ReadFile reads a file of the repository, honouring the overlay (used for the non-Go sources the rules parse themselves).
+func (p *Program) ReadFile(path string) ([]byte, error) {
+	if b, ok := p.overlay[path]; ok {
+		return b, nil
+	}
+	return os.ReadFile(path)
 }
